@@ -82,14 +82,15 @@ pub fn run(ctx: &Ctx) -> Report {
 	let mut total = Report::new();
 	total.rule = "explicit-state BFS: state = path text inside a fixed context (prefix, suffix); initial states = PATH(2) over the core segment alphabet valid in the context; transitions = push/pop/clear/symbolic_push/symbolic_append/normalize of the real PathMut (fresh handle, one handle replaying the history, stand-alone PathBuf); a violating transition is reported and not expanded; paths longer than 40 bytes are cut. non-trivial = distinct (context, state, op) transition executed".into();
 	let depth_env: Option<usize> = std::env::var("VERIF_C10_DEPTH").ok().and_then(|s| s.parse().ok());
-	// (depth, alphabet level) passes: thorough adds a deeper pass over the core alphabet
+	// (depth, alphabet level) passes: thorough = depth 3 over the core alphabet in every context, depth 3
+	// over the level-1 alphabet and depth 4 over the core alphabet in the core contexts
 	let passes: Vec<(usize, u8)> = match depth_env {
 		Some(d) => vec![(d, 0)],
 		None => {
 			if ctx.quick() {
 				vec![(2, 0)]
 			} else {
-				vec![(3, 1), (4, 0)]
+				vec![(3, 0), (3, 1), (4, 0)]
 			}
 		}
 	};
@@ -97,6 +98,12 @@ pub fn run(ctx: &Ctx) -> Report {
 	for (depth, level) in &passes {
 		for f in Family::active() {
 			for (p, s) in contexts(*level) {
+				// the deepest pass keeps to the core contexts (a prefix of each kind, with and without
+				// a 4-byte tail); the extra tails and prefixes are explored one level less deep
+				let core = ["", "s:", "//h", "s://h"].contains(&std::str::from_utf8(&p).unwrap()) && (s.is_empty() || s == b"?q#f");
+				if !ctx.quick() && ((*depth >= 4 && !(core && s.is_empty())) || (*depth == 3 && *level >= 1 && !core)) {
+					continue;
+				}
 				jobs.push((f, p, s, *depth, *level));
 			}
 		}
